@@ -698,6 +698,32 @@ def std_params(ctx, exe):
     return res
 
 
+# ----------------------------------------------------------------------------- stream for C19 (all build configurations)
+
+# in the cross-word replay (64-bit stream on the 32-bit-word library) the scalar routines answer `bad-op`: their lengths are
+# counted in machine words and the NAF window is chosen from m * B_PER_W, so their op names carry the word size
+# (`mul` / `mul32`, ...); everything else (pair, single routines, ison, swu, naf) is word-size independent
+C19_WORD_SPECIFIC = {"mul", "hasorder", "addmul"}
+
+
+def c19_stream():
+    def fn(ctx, exe, w):
+        rng = ctx.rng
+        std = std_params(ctx, exe)
+        std = {k: v for k, v in std.items() if k in ("bign256", "bign96", "gost512B")}
+        small, _ = gen_small(ctx, True)
+        ops = [o for o in CORPUS if w == 64 or kind_of(o) not in C19_WORD_SPECIFIC] + rng.sample(small, 1500) + rng.sample(gen_naf(ctx, True), 300) + rng.sample(gen_small_misc(ctx, True), 500)
+        ops += [o for o in gen_two_word(ctx, True) + gen_big(ctx, std, True) + gen_ec2_unreduced(ctx) + gen_ec2(ctx, True)[::2]
+                if kind_of(o) not in ("mul", "hasorder", "addmul")]
+        if w == 64:
+            sc = gen_small_mul(ctx, True) + [o for o in gen_two_word(ctx, True) + gen_big(ctx, std, True) + gen_ec2(ctx, True)[::2]
+                                             if kind_of(o) in ("mul", "hasorder", "addmul")]
+        else:
+            sc = gen_w32(ctx, std, True)
+        return ops + rng.sample(sc, min(len(sc), 1500))
+    return ("harness/c06.c", "drv_c06", fn, False)
+
+
 # ----------------------------------------------------------------------------- run
 
 def naf_valid(op, out):
